@@ -52,3 +52,12 @@ Example options_example :
   build_ecfg [None; Some (OSecondary true); Some (OLogger true); None; Some (OLogger false); Some (OProvider true)]
   = mkecfg true false true.
 Proof. reflexivity. Qed.
+
+(* what the evaluator is run with *)
+From LD Require Import F32 Data Model Ops Bucket Eval.
+Definition opts_of (c : ecfg) (recorder : bool) : opts := mkopts (ec_secondary c) (ec_logger c) recorder.
+
+Theorem nil_option_does_not_change_evaluation re_ok re_match l1 l2 recorder E P c f :
+  run re_ok re_match (opts_of (build_ecfg (l1 ++ None :: l2)) recorder) E P c f =
+  run re_ok re_match (opts_of (build_ecfg (l1 ++ l2)) recorder) E P c f.
+Proof. rewrite nil_options_are_skipped. reflexivity. Qed.
